@@ -942,7 +942,7 @@ func (g *c05Gen) next() c05Op {
 	case "glob":
 		op.P = c05GlobPatterns[g.rng.Intn(len(c05GlobPatterns))]
 		if g.rng.Intn(4) != 0 { // pattern syntax as a dimension of its own: c05_globpat.go
-			op.P = c05GenGlobPattern(g.rng, ents)
+			op.P = c05GenGlobPattern(g.rng, ents, g.pmode != "rel")
 		}
 	case "chown":
 		op.P = g.path(ents)
